@@ -19,21 +19,25 @@ func gen(g *hx.Gen) {
 		}
 		salt := r.Bytes(r.Range(1, 64))
 		rep := 1
-		rounds := r.Range(1, 6)
+		rounds := r.PickInt(1, 1, 2, 2, 3, 5)
 		if g.Thorough() {
 			rounds = r.Range(1, 32)
 		}
-		kl := r.Range(1, 200)
+		kl := r.Range(1, 70)
+		if g.Thorough() || r.Chance(1, 5) {
+			kl = r.Range(1, 200)
+		}
 		switch r.Intn(8) {
 		case 0:
 			kl = r.PickInt(1, 31, 32, 33, 63, 64, 65, 95, 96, 97, 128)
+			rounds = r.PickInt(1, 2)
 			g.Stat("keylen.block-boundary")
 		case 1:
 			kl = r.Range(1, 32)
 		}
-		switch r.Intn(14) {
+		switch r.Intn(24) {
 		case 0:
-			rounds = r.PickInt(0, -1, -5)
+			rounds = r.PickInt(0, 0, -1, -5)
 			g.Stat("bad.rounds")
 		case 1:
 			pw = nil
